@@ -8,6 +8,9 @@
    not `is None`).  The "second source is rejected and nothing changes" and "a sourced pipeline can be called" parts
    hold under [forall s, truthy s = true] and are REFUTED without it (C14_second_source_inert_refuted,
    C14_sourced_call_refuted: witnesses = a source callable that is falsy, e.g. an empty callable container).
+   This is candidate finding F-S (not in known_findings.json; replay: corpus/C14/pending/FS_falsy_source.json, on which
+   the faithful model and the implementation agree and the direct oracle fails); the correspondence generator produces
+   truthy callables only (functions, bound methods, ordinary callable objects).
    The mutator-order and call-trace parts need no guard. *)
 From Viv Require Import Common Pipeline PipelineProofs.
 From Coq Require Import Permutation.
